@@ -642,7 +642,7 @@ func launch(exe, racebin string, c *commonFlags, k *childState, nshards, nrace i
 	cmd.Stderr = outf
 	cmd.Env = append(os.Environ(), "GOTRACEBACK=all")
 	if k.race {
-		cmd.Env = append(cmd.Env, "GORACE=halt_on_error=0 log_path="+filepath.Join(k.dir, "race"))
+		cmd.Env = append(cmd.Env, "GORACE=halt_on_error=0 exitcode=0 log_path="+filepath.Join(k.dir, "race"))
 	}
 	if err := cmd.Start(); err != nil {
 		return -1, "cannot start child: " + err.Error(), "start", false, "crashed"
